@@ -1439,3 +1439,10 @@ Qed.
 
 Theorem undecodable_token_rejected {A} (k : bytes -> outcome A) : with_b64 None k = Rejected EInvalidToken.
 Proof. reflexivity. Qed.
+
+Theorem sorted_listing_spec_all {A} (rows : list (bytes * A)) :
+  (Permutation (isort ble rows) rows
+   /\ StronglySorted (fun x y => ble (fst x) (fst y) = true) (isort ble rows))
+  /\ (Permutation (isort desc rows) rows
+      /\ StronglySorted (fun x y => ble (fst y) (fst x) = true) (isort desc rows)).
+Proof. exact (conj (isort_ble_spec rows) (isort_desc_spec rows)). Qed.
